@@ -56,6 +56,21 @@ fn main() {
             let to: u64 = args[6].parse().unwrap_or(0);
             capi::exit_now(framework::explore_child(p.as_ref(), tier, seed, from, to));
         }
+        "scenario-digest" => {
+            let s = std::fs::read_to_string(&args[2]).expect("read");
+            let sc: scenario::Scenario = serde_json::from_str(&s).expect("scenario json");
+            match driver::run(&sc) {
+                Ok(h) => println!("{:016x}", props::c18::history_digest(&h)),
+                Err(e) => println!("not-executable {e}"),
+            }
+        }
+        "c18-digest" => {
+            let seed: u64 = args.get(2).and_then(|s| s.parse().ok()).unwrap_or(1);
+            let n: u64 = args.get(3).and_then(|s| s.parse().ok()).unwrap_or(10);
+            for l in props::c18::digest_lines(seed, n) {
+                println!("{l}");
+            }
+        }
         "replay" => {
             if args.len() < 4 {
                 usage();
